@@ -60,7 +60,11 @@ CLAIM = {
              "generated input x command is run in N fresh processes (quick 6, thorough 24) and stdout, stderr and exit "
              "status must be byte-identical. A source probe lists every iteration over a HashMap/HashSet in core/src and "
              "cli/src and fails the check when a site is new, changed, or lost its recorded sort."),
-    "note": ("process-level determinism is observed, not proved; the only normalisation is env_logger's wall-clock timestamp in "
+    "note": ("the command-level theorems compose the validated models (process, Ledger::balance / eval, price repository, "
+             "report printing) through glue definitions written from cli/src/cmd.rs and core/src/report.rs "
+             "(processScr / processScr2, cmdText, registerReport, accountsStep, balanceXLines, evalLine, balanceXOut, "
+             "evalOut); the glue itself is not exercised by a differential stream; "
+             "process-level determinism is observed, not proved; the only normalisation is env_logger's wall-clock timestamp in "
              "front of a log line on stderr; `--now` is always passed (without it `balance -X` reads the wall clock); the "
              "iteration-site probe is a regex heuristic; known open nondeterminism: F14 (rewrite-rule field order) and F32 "
              "(which of two configuration errors is reported) in `okane import`."),
